@@ -18,8 +18,8 @@ def run():
     env = dict(os.environ, CARGO_TARGET_DIR=os.path.join(facts.CACHE, "target-witness"), CARGO_NET_OFFLINE="true")
     r = subprocess.run(["cargo", "+nightly", "test", "--doc", "--offline"], cwd=WDIR, env=env, capture_output=True, text=True)
     out = {"__build__": ""}
-    for m in re.finditer(r"^test src/lib\.rs - (\S+) \(line (\d+)\)( - compile fail)? \.\.\. (ok|FAILED)", r.stdout, re.M):
-        out["%s@%s%s" % (m.group(1), m.group(2), " compile_fail" if m.group(3) else " twin")] = m.group(4)
+    for m in re.finditer(r"^test src/lib\.rs - (\S+) \(line (\d+)\)( - compile fail| - compile)? \.\.\. (ok|FAILED)", r.stdout, re.M):
+        out["%s@%s%s" % (m.group(1), m.group(2), " compile_fail" if (m.group(3) or "").endswith("fail") else " twin")] = m.group(4)
     if not [k for k in out if k != "__build__"]:
         out["__build__"] = (r.stderr or r.stdout)[-1500:]
     for old in [f for f in os.listdir(facts.CACHE) if f.startswith("witness-") and f.endswith(".json")]:
@@ -32,6 +32,7 @@ def apply(chk, rule_id, struct_name, what):
     """record the verdicts of all doctests attached to `struct_name` as obligations of rule_id"""
     res = run()
     r = chk.rule(rule_id, "T11", what, floor=2)
+    r.only_cfgs = {"Q"}
     if res.get("__build__"):
         r.violation("%s|witness crate builds" % struct_name, "witness/src/lib.rs",
                     "the witness crate does not build against /repo any more (a const assertion failed or an API it names is gone): " + res["__build__"][-400:])
